@@ -13,6 +13,7 @@ import (
 	"bufio"
 	"encoding/json"
 	"fmt"
+	"github.com/hneemann/parser2/value/export"
 	"io"
 	"os"
 	"os/exec"
@@ -636,7 +637,7 @@ func c16Mutate(c *Ctx, marked string) string {
 }
 
 func runC16(c *Ctx) {
-	c.rule = "type-directed random programs as in C01 whose free identifiers are attributes of the argument map m (19 attributes: ints, lists eager/lazy, string, bool, float, maps, closures), attribute references emitted through a marker so that exp (x) and exp' (m.x) come from one generation; a third of the programs wrapped into 1..3 nested closures (list map, immediately applied, attribute list map) and a recursive func; attribute names colliding with generated let/parameter/func names (shadowing), keys named pi/true/abs/max/m present in every map (constant, static function and the map win in both spellings); each program: GenerateWithMap(exp) vs Generate(exp') with optimizer off and on, evaluated on the argument map in 6 representations (list map, put chain, merge, hash map, evaluated literal, put on merge) plus 2 maps with missing attributes; trees of both parsers compared with each other and with the Lean resolver (map mode, expand, explicit mode); a mutated (malformed) stream and programs binding m themselves (correspondence only); generator histories (GenerateWithMap calls with two map names interleaved with AddConstant of names that were attributes before, optimizer off/on); non-trivial = distinct program with an attribute use inside at least one closure or func body"
+	c.rule = "type-directed random programs as in C01 whose free identifiers are attributes of the argument map m (19 attributes: ints, lists eager/lazy, string, bool, float, maps, closures), attribute references emitted through a marker so that exp (x) and exp' (m.x) come from one generation; a third of the programs wrapped into 1..3 nested closures (list map, immediately applied, attribute list map) and a recursive func; attribute names colliding with generated let/parameter/func names (shadowing), keys named pi/true/abs/max/m present in every map (constant, static function and the map win in both spellings); each program: GenerateWithMap(exp) vs Generate(exp') with optimizer off and on, evaluated on the argument map in 6 representations (list map, put chain, merge, hash map, evaluated literal, put on merge), on 2 maps with missing attributes and on the map inside the exporters' wrapper values (Format, Link: values that answer ToMap); trees of both parsers compared with each other and with the Lean resolver (map mode, expand, explicit mode); a mutated (malformed) stream and programs binding m themselves (correspondence only); generator histories (GenerateWithMap calls with two map names interleaved with AddConstant of names that were attributes before, optimizer off/on); non-trivial = distinct program with an attribute use inside at least one closure or func body"
 	c.assume = append(c.assume,
 		"the grammar (text -> tree shape) is shared: the raw tree sent to the model is produced by the real parser with a chain resolving every name to a plain identifier (literal let values wrapped so that no let is dissolved); C03/C04 cover the grammar",
 		"the IsFunc mark of an identifier node is not part of the model's AST (P2.Lang.gen reconstructs it); error message texts are not compared",
@@ -645,6 +646,7 @@ func runC16(c *Ctx) {
 	n := c.Pick(6000, 80000)
 	if os.Getenv("VERIF_REPLAY") == "" {
 		c16Histories(c, c.Pick(400, 4000))
+		c16LeanGenerators(c)
 	}
 	maxDepth := c.Pick(6, 7)
 
@@ -948,6 +950,66 @@ func c16Histories(c *Ctx, n int) {
 	}
 }
 
+// c16LeanGenerators: GenerateWithMap on generators configured by hand from the handlers of the value package, with no
+// constant and no static function at all, with constants only, with static functions only (the identifier chain the map
+// lookup is put on top of may be empty): map mode behaves like the explicit spelling there too
+func c16LeanGenerators(c *Ctx) {
+	progs := [][2]string{{"x + y", "m.x + m.y"}, {"[1, 2].map(e -> e * x).sum()", "[1, 2].map(e -> e * m.x).sum()"}, {"let q = x; q + y", "let q = m.x; q + m.y"},
+		{"func f(n) if n <= 0 then x else f(n - 1) + y; f(2)", "func f(n) if n <= 0 then m.x else f(n - 1) + m.y; f(2)"}, {"x", "m.x"}, {"nosuch + x", "m.nosuch + m.x"}, {"(p -> p + x)(y)", "(p -> p + m.x)(m.y)"}}
+	for variant := 0; variant < 4; variant++ {
+		h := value.New()
+		g := funcGen.New[value.Value]().SetNumberParser(h).SetKeyWords("let", "func", "if", "then", "else", "switch", "case", "default", "try", "catch").
+			SetListHandler(h).SetMapHandler(h).SetClosureHandler(h).SetMethodHandler(h).SetStringConverter(h).
+			SetToBool(func(c value.Value) (bool, bool) { b, ok := c.(value.Bool); return bool(b), ok })
+		for _, op := range []string{"<=", "+", "-", "*"} {
+			g.AddOpImpl(op, false, h.GetOpImpl(op))
+		}
+		switch variant {
+		case 1:
+			g.AddConstant("k", value.Int(5))
+		case 2:
+			g.AddStaticFunction("two", funcGen.Function[value.Value]{Func: func(st funcGen.Stack[value.Value], cs []value.Value) (value.Value, error) { return value.Int(2), nil }, Args: 1, IsPure: true})
+		case 3:
+			g.SetOptimizer(nil)
+		}
+		arg := buildMap([]string{"x", "y"}, []value.Value{value.Int(3), value.Int(4)}, 0)
+		for _, pr := range progs {
+			outcome := func(gen func() (funcGen.Func[value.Value], bool, error)) (out string) {
+				defer func() {
+					if r := recover(); r != nil {
+						out = fmt.Sprintf("PANIC %v", r)
+					}
+				}()
+				f, _, err := gen()
+				if err != nil {
+					return "GENERR"
+				}
+				v, err := f.Eval(arg)
+				if err != nil {
+					return "ERR"
+				}
+				cv, err := canonValue(v)
+				if err != nil {
+					return "ERR"
+				}
+				return "OK " + cv
+			}
+			got := outcome(func() (funcGen.Func[value.Value], bool, error) { return g.GenerateWithMap(pr[0], "m") })
+			want := outcome(func() (funcGen.Func[value.Value], bool, error) { return g.Generate(pr[1], "m") })
+			c.Case(fmt.Sprintf("lean-generator|%d|%s", variant, pr[0]), true)
+			c.Count("lean-generator")
+			if got != want || strings.HasPrefix(got, "PANIC") {
+				sig := "mapmode-differs-from-explicit:lean-generator"
+				if strings.HasPrefix(got, "PANIC") || strings.HasPrefix(want, "PANIC") {
+					sig = "panic-in-generate"
+				}
+				c.Violation(sig, "on a generator configured by hand (no / few identifiers) GenerateWithMap(exp, m) and Generate(exp', m) differ",
+					map[string]any{"generator_variant": variant, "exp": pr[0], "exp_explicit": pr[1], "map_mode": got, "explicit": want})
+			}
+		}
+	}
+}
+
 // ---- predicate (a) in a child process -----------------------------------------------------------
 
 type c16Violation struct {
@@ -1003,12 +1065,22 @@ func c16Behaviour(env *c16Env, idx int, cs *c16Case) (v c16Verdict) {
 				fL = nil
 			}
 		}
-		for r := 0; r < 8; r++ {
+		for r := 0; r < 10; r++ {
 			rep, variant := r, 0
 			if r >= 6 {
 				rep, variant = (idx+r)%6, r-5
 			}
-			arg := env.argMap(idx, rep, variant)
+			var arg value.Value
+			switch r {
+			case 8: // the argument map inside a wrapper value that answers ToMap (the styling wrappers of the exporters)
+				rep, variant = (idx+r)%3, 0
+				arg = export.Format{Value: env.argMap(idx, rep, variant), Format: value.String("s")}
+			case 9:
+				rep, variant = (idx+r)%3, 0
+				arg = export.Link{Value: env.argMap(idx, rep, variant), Link: "t"}
+			default:
+				arg = env.argMap(idx, rep, variant)
+			}
 			oM, oE := c16Eval(fM, arg), c16Eval(fE, arg)
 			if mode == "off" {
 				v.Counts = append(v.Counts, "outcome="+strings.SplitN(oM, " ", 2)[0])
